@@ -90,6 +90,20 @@ def st_spec(draw):
     feats = FEATS[:nf]
     data = {f: draw(st.lists(VAL, min_size=n, max_size=n)) for f in feats}
     ops = draw(st.lists(st_op(feats, n), min_size=1, max_size=40))
+    # scenario prefixes that random mixing reaches too rarely
+    scen = draw(st.sampled_from([None, None, "limit+manual", "limit+manual",
+                                 "limit+range"]))
+    if scen and n >= 5:
+        k = draw(st.integers(1, max(1, n // 2)))
+        pre = [["limit", k]]
+        if scen == "limit+manual":
+            idx = draw(st.lists(st.integers(0, n - 1), min_size=max(1, n // 4),
+                                max_size=max(1, n // 2), unique=True))
+            pre.append(["manual", idx, False])
+        else:
+            pre.append(["range", feats[0], draw(BOUND), draw(BOUND), True])
+        pos = draw(st.integers(0, len(ops)))
+        ops = ops[:pos] + pre + [["apply", None]] + ops[pos:]
     return {"n": n, "data": data, "ops": ops}
 
 
